@@ -300,6 +300,12 @@ class CallMixin(StmtMixin):
                 binds[p] = v.val
             elif sort.kind == "opt" and not isinstance(v, Opt) and p in binds:
                 binds[p] = Opt(True, self.default_of(sort.arg)) if v is None else Opt(False, v)
+            elif sort.kind == "str" and isinstance(v, ADT) and hasattr(self.reg.adts[v.family], "as_str"):
+                # an object of a str subclass (rdflib URIRef/BNode) handed to a str parameter: its string value
+                sv = self.reg.adts[v.family].as_str(self, st, v)
+                if sv is None:
+                    raise Unsupported(f"term object passed to str parameter {p} of {c.key}", node)
+                binds[p] = sv
         env = Env(self, st, binds)
         # parameter sorts: type invariants are obligations at the call site
         for p, sort in c.params.items():
@@ -863,6 +869,13 @@ class CallMixin(StmtMixin):
         (v,) = args
         if V.is_str(v):
             yield st, v
+            return
+        if isinstance(v, Opt):
+            for st1, isn in self.branch(st, v.isnone, f"L{getattr(node, 'lineno', 0)}str-none"):
+                if isn:
+                    yield st1, "None"
+                else:
+                    yield from self.builtin_str(st1, [v.val], kwargs, node, ctx)
             return
         if isinstance(v, ADT):
             fam = self.reg.adts[v.family]
